@@ -1499,11 +1499,14 @@ namespace ipr::impl {
 
       impl::Alias*
       Scope::make_alias(const ipr::Name& n, const ipr::Expr& i) {
+         // Ask for the type first: if the initializer has none yet, the request is
+         // refused before anything is entered in this scope.
+         const ipr::Type& t = i.type();
          impl::Overload* ovl = overloads.insert(n, node_compare());
-         overload_entry* master = ovl->lookup(i.type());
+         overload_entry* master = ovl->lookup(t);
 
          if (master == nullptr) {
-            impl::Alias* decl = aliases.declare(ovl, i.type());
+            impl::Alias* decl = aliases.declare(ovl, t);
             decl->aliasee = &i;
             add_member(decl);
             return decl;
